@@ -743,7 +743,11 @@ func (c *fctx) storedLastView(s *ast.AssignStmt, call *ast.CallExpr) {
 		return
 	}
 	recv := sel.X
-	st, ok := c.info.Types[recv].Type.Underlying().(*types.Slice)
+	rt := c.info.Types[recv].Type
+	if p, ok := rt.Underlying().(*types.Pointer); ok { // the caller's own receiver: a pointer to the container
+		rt = p.Elem()
+	}
+	st, ok := rt.Underlying().(*types.Slice)
 	if !ok {
 		return
 	}
